@@ -8,7 +8,8 @@
     order override, content, room, sender, underride all of whose conditions hold; nothing for the
     user's own events), `lookup` (dot-path addressing with backslash escapes).
   * Model (`Model/Glob.lean`, `Model/FlattenedJson.lean`, `Model/Push.lean`): `matchesPattern`,
-    `matchesWord` (hand-written scanner `scanLit` / chunked regular expression `chunks`), `flatten`,
+    `matchesWord` / `containsWord` (hand-written scanner `scanLit` / chunked regular expression
+    `chunks`), `flatten`,
     `Cond.applies`, `Iter.next`, `getMatch` — the Rust code branch for branch; panics are the
     `Except.error` outcome.
   * External code is the parameter `E : Ext`; `ExtOk E` states what is assumed of `wildmatch` (it
@@ -79,6 +80,24 @@ theorem matchesPattern_iff_spec (E : Ext) (hE : ExtOk E) (value pattern : Text) 
     exact Ruma.Spec.Glob.globDecide_iff_Glob _ _
   · simp only [if_true, Ruma.Spec.Glob.wordMatchDecide, Ruma.Spec.Glob.wordMatches]
     exact Ruma.Spec.Glob.wordDecide_iff_WordMatch _ _
+
+/-- `contains_display_name` — "`content.body` contains the owner's display name": `contains_word`
+never panics and holds iff the display name occurs in the body as LITERAL text (a `*` or `?` in a
+display name is an ordinary character, unlike in an `event_match` pattern) between word boundaries,
+case-insensitively; for EVERY display name and body. A name without `*` / `?` is matched exactly as
+the same text used as an `event_match` pattern on `content.body` would be. -/
+theorem containsDisplayName_literal (E : Ext) (body name : Text) :
+    (∃ b, containsWord E body name = .ok b ∧
+      (b = true ↔ Ruma.Spec.Glob.containsWordMatches E.lower name body)) ∧
+    ((∀ c ∈ E.lower name, c ≠ '*' ∧ c ≠ '?') →
+      (Ruma.Spec.Glob.containsWordMatches E.lower name body ↔ wordMatches E.lower name body)) :=
+  ⟨⟨_, containsWord_spec E body name, Ruma.Spec.Glob.literalWordDecide_iff _ _⟩,
+   fun h => Ruma.Spec.Glob.LiteralWordMatch_iff_WordMatch h _⟩
+
+/-- The display name `*` does not match everything: it has to occur, as the character `*`. -/
+example : Ruma.Spec.Glob.literalWordDecide "*".toList "hello".toList = false ∧
+    Ruma.Spec.Glob.literalWordDecide "*".toList "a * b".toList = true ∧
+    wordDecide "*".toList "hello".toList = true := by decide
 
 /-- The assumptions `ExtOk` are satisfiable: the reference matchers of the driver (`globDecide` for
 `wildmatch`, `rxDecide` for the generated regular expression) satisfy them, for any `lower` and
@@ -272,7 +291,7 @@ theorem memberCountDecide_iff_Holds (s : Text) (x : Nat) :
 /-- Every `PushCondition` variant: `PushCondition::applies` never panics and holds iff the event was
 not sent by the user and the condition holds in the spec's reading `CondHolds` — `event_match`
 (string property, or the context's room id for `room_id`; word-boundary glob for `content.body`,
-whole-value glob otherwise), `contains_display_name`, `room_member_count`,
+whole-value glob otherwise), `contains_display_name` (the name as literal text on word boundaries), `room_member_count`,
 `sender_notification_permission`, `event_property_is`, `event_property_contains`; an unknown
 condition never holds. -/
 theorem condition_iff_spec (E : Ext) (hE : ExtOk E) (ev : PJ) (ctx : Ctx) (c : Cond) :
@@ -521,6 +540,7 @@ end Ruma.Props.C12
 #print axioms Ruma.Props.C12.wildcard_chunks_iff_spec
 #print axioms Ruma.Props.C12.regex_edges_are_boundaries
 #print axioms Ruma.Props.C12.matchesPattern_iff_spec
+#print axioms Ruma.Props.C12.containsDisplayName_literal
 #print axioms Ruma.Props.C12.reference_matchers_ok
 #print axioms Ruma.Props.C12.memberCount_iff
 #print axioms Ruma.Props.C12.notificationPermission_iff
